@@ -325,9 +325,6 @@ func plan(cfgIdx int, img *image, rng *rand.Rand, budget int) []*job {
 			}
 		}
 	}
-	if img.cfg.compression != 0 {
-		jobs = append(jobs, planCompressed(cfgIdx, img, rng)...)
-	}
 	// sample down to the budget, keeping at least one job of every (class, kind family)
 	if len(jobs) > budget {
 		seen := map[string]bool{}
@@ -353,6 +350,10 @@ func plan(cfgIdx int, img *image, rng *rand.Rand, budget int) []*job {
 			keep = append(keep, j)
 		}
 		jobs = keep
+	}
+	if img.cfg.compression != 0 {
+		// physical bytes of the compressed value log: always kept (direct check only)
+		jobs = append(jobs, planCompressed(cfgIdx, img, rng)...)
 	}
 	for i, j := range jobs {
 		j.skip = i%4 == 0
@@ -433,7 +434,7 @@ func planCompressed(cfgIdx int, img *image, rng *rand.Rand) []*job {
 		if len(data) == 0 {
 			continue
 		}
-		for k := 0; k < 60; k++ {
+		for k := 0; k < 30; k++ {
 			p := rng.Intn(len(data))
 			d := []byte{data[p] ^ (1 << uint(rng.Intn(8)))}
 			kind := "bitflip"
